@@ -17,24 +17,39 @@ open Goyang.Lemmas.Tree (foldl_inv one?_kw mem_all_kw)
 /-- The classes `Names` says something about. -/
 def constrained : List String :=
   ["unknown-group", "bad-ordered-by", "bad-max-elements", "bad-min-elements", "bad-tristate", "unknown-type",
+   "unknown-prefix", "bad-range", "bad-length", "negative-length"] ++ enumClasses
+
+/-- The classes constrained to something else than a `type` statement. -/
+def notType : List String :=
+  ["unknown-group", "bad-ordered-by", "bad-max-elements", "bad-min-elements", "bad-tristate",
+   "bad-range", "bad-length", "negative-length"] ++ enumClasses
+
+/-- The classes constrained to something else than an `enum` / `bit` statement. -/
+def notEnum : List String :=
+  ["unknown-group", "bad-ordered-by", "bad-max-elements", "bad-min-elements", "bad-tristate", "unknown-type",
    "unknown-prefix", "bad-range", "bad-length", "negative-length"]
 
 /-- Any statement may carry an error of a class that `Names` does not constrain. -/
 theorem names_free {cls : String} (s : Stmt) (h : cls ∉ constrained) : Names cls s := by
-  simp only [constrained, List.mem_cons, List.not_mem_nil, or_false, not_or] at h
+  simp only [constrained, List.mem_append, List.mem_cons, List.not_mem_nil, or_false, not_or] at h
+  obtain ⟨⟨h1, h2, h3, h4, h5, h6, h7, h8, h9, h10⟩, h11⟩ := h
+  exact ⟨fun e => absurd e h1, fun e => absurd e h2, fun e => absurd e h3, fun e => absurd e h4,
+    fun e => absurd e h5, fun e => absurd e h6, fun e => absurd e h7, fun e => absurd e h8,
+    fun e => absurd e h9, fun e => absurd e h10, fun e => absurd e h11⟩
+
+theorem names_type {cls : String} {s : Stmt} (hs : s.kw = "type") (h : cls ∉ notType) : Names cls s := by
+  simp only [notType, List.mem_append, List.mem_cons, List.not_mem_nil, or_false, not_or] at h
+  obtain ⟨⟨h1, h2, h3, h4, h5, h8, h9, h10⟩, h11⟩ := h
+  exact ⟨fun e => absurd e h1, fun e => absurd e h2, fun e => absurd e h3, fun e => absurd e h4,
+    fun e => absurd e h5, fun _ => hs, fun _ => hs, fun e => absurd e h8,
+    fun e => absurd e h9, fun e => absurd e h10, fun e => absurd e h11⟩
+
+theorem names_enum {cls : String} {s : Stmt} (hs : s.kw = "enum" ∨ s.kw = "bit") (h : cls ∉ notEnum) : Names cls s := by
+  simp only [notEnum, List.mem_cons, List.not_mem_nil, or_false, not_or] at h
   obtain ⟨h1, h2, h3, h4, h5, h6, h7, h8, h9, h10⟩ := h
   exact ⟨fun e => absurd e h1, fun e => absurd e h2, fun e => absurd e h3, fun e => absurd e h4,
     fun e => absurd e h5, fun e => absurd e h6, fun e => absurd e h7, fun e => absurd e h8,
-    fun e => absurd e h9, fun e => absurd e h10⟩
-
-theorem names_type {cls : String} {s : Stmt} (hs : s.kw = "type")
-    (h : cls ∉ ["unknown-group", "bad-ordered-by", "bad-max-elements", "bad-min-elements", "bad-tristate",
-      "bad-range", "bad-length", "negative-length"]) : Names cls s := by
-  simp only [List.mem_cons, List.not_mem_nil, or_false, not_or] at h
-  obtain ⟨h1, h2, h3, h4, h5, h8, h9, h10⟩ := h
-  exact ⟨fun e => absurd e h1, fun e => absurd e h2, fun e => absurd e h3, fun e => absurd e h4,
-    fun e => absurd e h5, fun _ => hs, fun _ => hs, fun e => absurd e h8,
-    fun e => absurd e h9, fun e => absurd e h10⟩
+    fun e => absurd e h9, fun e => absurd e h10, fun _ => hs⟩
 
 section
 variable {reg : Registry}
@@ -48,8 +63,7 @@ theorem good_free {s : Stmt} (hs : StmtOf reg s) {cls : String} (h : cls ∉ con
   posOK_at hs cls (names_free s h)
 
 theorem good_type {s : Stmt} (hs : StmtOf reg s) (hk : s.kw = "type") {cls : String}
-    (h : cls ∉ ["unknown-group", "bad-ordered-by", "bad-max-elements", "bad-min-elements", "bad-tristate",
-      "bad-range", "bad-length", "negative-length"]) : Good reg (Err.at_ s cls) :=
+    (h : cls ∉ notType) : Good reg (Err.at_ s cls) :=
   posOK_at hs cls (names_type hk h)
 
 /-! ### typedef lookup returns statements of loaded modules -/
@@ -262,7 +276,8 @@ theorem stepRange_good {t : Stmt} (ht : StmtOf reg t) (dec : Bool) (s : St) (hs 
       have hk := one?_kw t _ r hr
       exact ⟨fun e => absurd e (by decide), fun e => absurd e (by decide), fun e => absurd e (by decide),
         fun e => absurd e (by decide), fun e => absurd e (by decide), fun e => absurd e (by decide),
-        fun e => absurd e (by decide), fun _ => hk, fun e => absurd e (by decide), fun e => absurd e (by decide)⟩
+        fun e => absurd e (by decide), fun _ => hk, fun e => absurd e (by decide), fun e => absurd e (by decide),
+        fun e => absurd e (by decide)⟩
 
 theorem stepLength_good {t : Stmt} (ht : StmtOf reg t) (s : St) (hs : GoodL reg s.2) :
     GoodL reg (stepLength t s).2 := by
@@ -276,22 +291,27 @@ theorem stepLength_good {t : Stmt} (ht : StmtOf reg t) (s : St) (hs : GoodL reg 
     · refine goodL_snoc hs (posOK_at (stmtOf_one ht hl) _ ?_)
       exact ⟨fun e => absurd e (by decide), fun e => absurd e (by decide), fun e => absurd e (by decide),
         fun e => absurd e (by decide), fun e => absurd e (by decide), fun e => absurd e (by decide),
-        fun e => absurd e (by decide), fun e => absurd e (by decide), fun e => absurd e (by decide), fun _ => hk⟩
+        fun e => absurd e (by decide), fun e => absurd e (by decide), fun e => absurd e (by decide), fun _ => hk,
+        fun e => absurd e (by decide)⟩
     · refine goodL_snoc hs (posOK_at (stmtOf_one ht hl) _ ?_)
       exact ⟨fun e => absurd e (by decide), fun e => absurd e (by decide), fun e => absurd e (by decide),
         fun e => absurd e (by decide), fun e => absurd e (by decide), fun e => absurd e (by decide),
-        fun e => absurd e (by decide), fun e => absurd e (by decide), fun _ => hk, fun e => absurd e (by decide)⟩
+        fun e => absurd e (by decide), fun e => absurd e (by decide), fun _ => hk, fun e => absurd e (by decide),
+        fun e => absurd e (by decide)⟩
 
-theorem enumErrClass_free (x : Enum.EnumErr) : enumErrClass x ∉ constrained := by
+theorem enumErrClass_notEnum (x : Enum.EnumErr) : enumErrClass x ∉ notEnum := by
   cases x <;> simp only [enumErrClass] <;> decide
 
-theorem enumFold_good (start : EnumTab) (valueKw : String) (members : List Stmt) (hm : ∀ e ∈ members, StmtOf reg e) :
+/-- The errors of the enum / bit loop stand at the rejected `enum` / `bit` member. -/
+theorem enumFold_good (start : EnumTab) (valueKw : String) (members : List Stmt)
+    (hm : ∀ e ∈ members, StmtOf reg e ∧ (e.kw = "enum" ∨ e.kw = "bit")) :
     GoodL reg (enumFold start valueKw members).2 := by
   intro x hx
   unfold enumFold at hx
   simp only [List.mem_filterMap, Option.map_eq_some_iff] at hx
   obtain ⟨ie, _, e, he, rfl⟩ := hx
-  exact good_free (hm e (List.mem_of_getElem? he)) (enumErrClass_free _)
+  obtain ⟨h1, h2⟩ := hm e (List.mem_of_getElem? he)
+  exact posOK_at h1 _ (names_enum h2 (enumErrClass_notEnum _))
 
 theorem stepEnum_good {t : Stmt} (ht : StmtOf reg t) (s : St) (hs : GoodL reg s.2) : GoodL reg (stepEnum t s).2 := by
   unfold stepEnum
@@ -300,7 +320,7 @@ theorem stepEnum_good {t : Stmt} (ht : StmtOf reg t) (s : St) (hs : GoodL reg s.
   · rename_i heq
     refine goodL_append hs (enumFold_good _ _ _ ?_)
     intro e he
-    exact stmtOf_all ht he
+    exact ⟨stmtOf_all ht he, Or.inl (mem_all_kw t _ e he)⟩
 
 theorem stepBit_good {t : Stmt} (ht : StmtOf reg t) (s : St) (hs : GoodL reg s.2) : GoodL reg (stepBit t s).2 := by
   unfold stepBit
@@ -309,7 +329,7 @@ theorem stepBit_good {t : Stmt} (ht : StmtOf reg t) (s : St) (hs : GoodL reg s.2
   · rename_i heq
     refine goodL_append hs (enumFold_good _ _ _ ?_)
     intro e he
-    exact stmtOf_all ht he
+    exact ⟨stmtOf_all ht he, Or.inr (mem_all_kw t _ e he)⟩
 
 theorem posixPatterns_sub (env : Types.Env) (root : Mod) (t : Stmt) (pps : List Stmt)
     (h : posixPatterns env root t = some pps) : ∀ e ∈ pps, e ∈ t.subs := by
